@@ -60,9 +60,9 @@ Fixpoint pfree (e : aexp) : bool :=
    NEG} and the symbolic Hessian is structurally zero.  Every expression of this class uses
    only those scalar operations and has a structurally zero Hessian; conversely CasADi may
    also accept expressions outside the class whose second derivatives cancel structurally,
-   and may reject members of the class for reasons internal to CasADi (a vertsplit/subref
-   instruction appears as soon as there is more than one parameter symbol or an indexed
-   array parameter).  The branch decision is therefore an INPUT of the model ([rb] below);
+   and may reject members of the class for reasons internal to CasADi (2*x becomes OP_TWICE,
+   x*x OP_SQ, repmat of a scalar over an array and indexing of an array parameter add
+   instructions outside the set).  The branch decision is therefore an INPUT of the model ([rb] below);
    the contract "rb = true -> all cells are in this class" is checked on every
    correspondence case and is the hypothesis of the theorems. *)
 Fixpoint affine (e : aexp) : bool :=
